@@ -317,7 +317,7 @@ func (fr *Frame) checkFrame(mods []string, entry, out *State, oc string) {
 			goal = eq(t1, t0)
 		} else {
 			r := fx.fresh("fr", "Int")
-			hyp := []string{"(<= 0 " + r + ")", "(< " + r + " " + alloc0 + ")"}
+			hyp := []string{"(< 0 " + r + ")", "(< " + r + " " + alloc0 + ")"}
 			if a != nil {
 				for _, x := range a.refs {
 					hyp = append(hyp, not(eq(r, x)))
@@ -396,25 +396,58 @@ func (E *Engine) solve(r *FuncResult, sel func(*Obligation) bool, sem chan struc
 	dir := filepath.Join(E.Opt.OutDir, safeName(r.Key))
 	os.MkdirAll(dir, 0o755)
 	qt := E.Opt.Timeout
-	// pass 1: incremental z3-new
-	script, order := r.incrementalScript(func(o *Obligation) bool { return sel(o) && !o.Canary }, 1000*qt/2)
-	if len(order) > 0 {
-		f := filepath.Join(dir, "all.smt2")
-		writeFile(f, script)
-		sem <- struct{}{}
-		ans, secs, raw := runIncremental("z3-new", f, time.Duration(len(order)*qt+20)*time.Second)
-		<-sem
-		for i, o := range order {
-			if i < len(ans) && ans[i] == "unsat" {
-				o.Status = "discharged"
-				o.Solver = "z3-new(incremental)"
-				o.Secs = secs / float64(len(order))
-			}
-		}
-		if len(ans) != len(order) && E.Opt.Verbose {
-			fmt.Fprintf(os.Stderr, "%s: incremental run answered %d of %d\n%s\n", r.Key, len(ans), len(order), tail(raw, 400))
+	// pass 1: incremental z3-new (E-matching only, short per-query timeout), obligations split into
+	// chunks that run in parallel
+	var todo []*Obligation
+	for _, o := range r.Obls {
+		if o.Status == "" && sel(o) && !o.Canary {
+			todo = append(todo, o)
 		}
 	}
+	nchunks := 1
+	if len(todo) > 60 {
+		nchunks = 4
+	} else if len(todo) > 20 {
+		nchunks = 2
+	}
+	var wg1 sync.WaitGroup
+	for c := 0; c < nchunks; c++ {
+		mine := map[*Obligation]bool{}
+		for i, o := range todo {
+			if i%nchunks == c {
+				mine[o] = true
+			}
+		}
+		if len(mine) == 0 {
+			continue
+		}
+		c := c
+		wg1.Add(1)
+		go func() {
+			defer wg1.Done()
+			script, order := r.incrementalScript(func(o *Obligation) bool { return mine[o] }, 1500)
+			f := filepath.Join(dir, fmt.Sprintf("all%d.smt2", c))
+			writeFile(f, script)
+			sem <- struct{}{}
+			ans, secs, raw := runIncremental("z3-new", f, time.Duration(len(order)*2+20)*time.Second)
+			<-sem
+			for i, o := range order {
+				if i < len(ans) && ans[i] == "unsat" {
+					o.Status = "discharged"
+					o.Solver = "z3-new(incremental)"
+					o.Secs = secs / float64(len(order))
+				}
+			}
+			if len(ans) != len(order) && E.Opt.Verbose {
+				fmt.Fprintf(os.Stderr, "%s: incremental run answered %d of %d\n%s\n", r.Key, len(ans), len(order), tail(raw, 400))
+			}
+			if !E.Opt.KeepSmt {
+				os.Remove(f)
+			}
+		}()
+	}
+	wg1.Wait()
+	_ = qt
 	// pass 2: stand-alone portfolio for the rest
 	var wg sync.WaitGroup
 	for _, o := range r.Obls {
